@@ -182,6 +182,14 @@ pub fn gen_new_args(r: &mut Rng) -> (f64, f64) {
         8 => ulps(2.0, r.range(-1, 1)),
         9 => log_uniform(r, -3.0, 3.0) * if r.chance(1, 4) { -1.0 } else { 1.0 },
         10 => 4.0,
+        // extreme scales (the quotient 2p/d, not p or d, is what the domain bounds): p·π overflows above 5.7e307 and is
+        // subnormal below 7e-309 — the constructor must not lose the angle there
+        11 => (match r.below(4) {
+            0 => log_uniform(r, 305.0, 308.2),
+            1 => 5e-324 * (1 + r.below(1 << 20)) as f64,
+            2 => log_uniform(r, -310.0, -290.0),
+            _ => log_uniform(r, -100.0, 100.0),
+        }) * if r.chance(1, 4) { -1.0 } else { 1.0 },
         _ => *r.pick(&[1.0, 2.0, 3.0, 4.0, 6.0, PI]),
     };
     let p = match r.below(16) {
@@ -201,6 +209,7 @@ pub fn gen_new_args(r: &mut Rng) -> (f64, f64) {
         11 => (r.unit() - 0.2) * d * (1u64 << 39) as f64,
         12 => r.range(-1000, 1000) as f64 / 7.0,
         13 => (r.range(-40, 40) as f64 / 12.0) * d,
+        14 => (r.unit() * 8.0 - 2.0) * d,
         _ => (r.unit() - 0.25) * 40.0,
     };
     let q = 2.0 * p / d;
@@ -383,6 +392,7 @@ pub fn gen_args(name: &str, sig: &str, r: &mut Rng) -> Vec<Val> {
         "arith.fmod" => { let (p, _) = gen_new_args(r); vec![Val::F(p * PI), Val::F(QP)] }
         "arith.as_usize" => vec![Val::F(match r.below(4) { 0 => r.range(0, 1 << 41) as f64, 1 => r.unit() * 1e6, 2 => gen_f_generic(r), _ => r.range(0, 100) as f64 + 0.5 })],
         "arith.of_usize" => vec![Val::N(if r.chance(1, 2) { gen_blade(r) } else { r.next() as usize >> r.below(40) })],
+        "arith.is_normal" => vec![Val::F(match r.below(6) { 0 => 0.0, 1 => ulps(f64::MIN_POSITIVE, r.range(-3, 3)), 2 => 5e-324 * (1 + r.below(1000)) as f64, 3 => -ulps(f64::MIN_POSITIVE, r.range(-3, 3)), 4 => malform_f(r), _ => gen_f_generic(r) })],
         "arith.acos" | "arith.asin" | "arith.clamp" => vec![Val::F(match r.below(4) { 0 => 1.0, 1 => -1.0, 2 => ulps(1.0, r.range(-2, 2)), _ => r.unit() * 2.0 - 1.0 })],
         "arith.cos" | "arith.sin" => vec![Val::F(match r.below(4) { 0 => (r.range(0, 4) as f64) * PI / 2.0, 1 => ulps((r.range(0, 4) as f64) * PI / 2.0, r.range(-3, 3)), _ => r.unit() * 2.0 * PI })],
         _ => default_args(sig, r),
